@@ -9,7 +9,7 @@
   non-negative weights summing to 1) — the property's quantifier.  No bound on string length,
   number of names, list length or number of families anywhere.
 -/
-import Gedcom.Lemmas.Similarity
+import Gedcom.Lemmas.JaroSymm
 namespace Gedcom.C12
 open Gedcom Gedcom.Sim
 
@@ -35,26 +35,19 @@ theorem jaroWinkler_self (a : Str) (boost : Rat) (p : Nat) (h : a ≠ []) :
 theorem jw_symm_prefix (a b : Str) (boost : Rat) (p : Nat) (h : jaro a b = jaro b a) :
     jaroWinkler a b boost p = jaroWinkler b a boost p := jaroWinkler_comm_of_jaro a b boost p h
 
-/-
-  Full statement (held on every pair tried — exhaustively over {a,b}* up to length 8 and {a,b,c}*
-  up to length 7 on the implementation, every run — but not yet proved in general):
-    theorem jaro_symm (a b : Str) : jaro a b = jaro b a
-  i.e. the greedy window matching started from either side pairs the same positions.  Proved
-  below under an explicit decidable guard; everything that depends on it (`jw_symm_prefix`,
-  `individual_symm`) takes string symmetry as a hypothesis about the strings at hand.
--/
+/-- Jaro does not depend on the operand order, for all byte strings: the greedy window matching
+    is the unique matching that is stable for "smaller index first" on both sides, a condition
+    that is symmetric in the two strings, so starting from either side pairs the same positions
+    (same `matches`, same `halfs`) -/
+theorem jaro_symm (a b : Str) : jaro a b = jaro b a := jaro_symm' a b
 
-/-- the guard of `jaro_symm_partial`: equal strings, or no common byte, or both strings shorter
-    than 6 bytes (match window 0) -/
-def SymmGuard (a b : Str) : Prop :=
-  a = b ∨ (∀ c ∈ a, c ∉ b) ∨ matchRange a.length b.length = 0
+theorem jaroWinkler_symm (a b : Str) (boost : Rat) (p : Nat) :
+    jaroWinkler a b boost p = jaroWinkler b a boost p :=
+  jaroWinkler_comm_of_jaro a b boost p (jaro_symm' a b)
 
-theorem jaro_symm_partial (a b : Str) (h : SymmGuard a b) : jaro a b = jaro b a := by
-  rcases h with h | h | h
-  · rw [h]
-  · rw [jaro_disjoint a b h, jaro_disjoint b a (fun c hc hca => h c hca hc)]
-  · rw [jaro_window0 a b h, jaro_window0 b a (by rw [matchRange_comm]; exact h), agree_comm,
-      jaroValue_comm]
+theorem stringSimilarity_symm (a b : Str) (boost : Rat) (p : Nat) :
+    stringSimilarity a b boost p = stringSimilarity b a boost p :=
+  jaroWinkler_comm_of_jaro _ _ boost p (jaro_symm' _ _)
 
 theorem stringSimilarity_bounds (a b : Str) (boost : Rat) (p : Nat) (hp : p ≤ 10) :
     0 ≤ stringSimilarity a b boost p ∧ stringSimilarity a b boost p ≤ 1 :=
@@ -128,16 +121,12 @@ theorem individual_bounds (x y : Option Indi) (o : SimOpts) (ho : o.Valid) :
     0 ≤ individualSimilarity x y o ∧ individualSimilarity x y o ≤ 1 :=
   individualSimilarity_bounds' x y o ho
 
-/-- operand order does not matter for two individuals as soon as it does not matter for their
-    name strings (see `jaro_symm` below for what is proved about strings) -/
-theorem individual_symm (x y : Option Indi) (o : SimOpts)
-    (h : ∀ a b, x = some a → y = some b → ∀ n ∈ a.names, ∀ m ∈ b.names,
-      stringSimilarity n m o.jaroBoostThreshold o.jaroPrefixSize =
-      stringSimilarity m n o.jaroBoostThreshold o.jaroPrefixSize) :
+/-- operand order does not matter for two individuals (any number of names on either side) -/
+theorem individual_symm (x y : Option Indi) (o : SimOpts) :
     individualSimilarity x y o = individualSimilarity y x o := by
   cases x <;> cases y <;> simp only [individualSimilarity]
   rename_i a b
-  exact indiSimilarity_comm a b o (h a b rfl rfl)
+  exact indiSimilarity_comm a b o (fun n _ m _ => stringSimilarity_symm n m _ _)
 
 theorem individual_missing_is_half (x : Option Indi) (o : SimOpts) :
     individualSimilarity none x o = 1 / 2 ∧ individualSimilarity x none o = 1 / 2 := by
@@ -164,8 +153,28 @@ theorem list_missing_is_half (xs : List Indi) (o : SimOpts) (h : xs ≠ []) :
   have : xs.length ≠ 0 := fun e => h (List.length_eq_zero_iff.mp e)
   simp [listSimilarity, this]
 
+/-
+  Not proved: `list_symm` (operand order of `listSimilarity`), hence the spouses / children
+  components of the surrounding similarity.  With the symmetric scores above the two runs sort
+  the same multiset of cells; they can differ only in the order of equal scores, and cells whose
+  order differs share neither a row nor a column.  The harness checks list and weighted symmetry
+  on the implementation for every generated case (within 1e-12: summation order).
+-/
+
 theorem family_bounds (f g : Fam) (o : SimOpts) (ho : o.Valid) :
     0 ≤ familySimilarity f g o ∧ familySimilarity f g o ≤ 1 := familySimilarity_bounds' f g o ho
+
+theorem family_symm (f g : Fam) (o : SimOpts) : familySimilarity f g o = familySimilarity g f o := by
+  unfold familySimilarity
+  rw [individual_symm f.husband g.husband, individual_symm f.wife g.wife]
+
+/-- the best score over the matrix of parent families does not depend on the operand order -/
+theorem parents_symm (ps qs : List Fam) (o : SimOpts) :
+    parentsSimilarity ps qs o = parentsSimilarity qs ps o := by
+  rw [parentsSimilarity_eq, parentsSimilarity_eq, Bool.or_comm]
+  split
+  · rfl
+  · exact foldMax2_comm _ _ 0 ps qs (fun p _ q _ => family_symm p q o)
 
 theorem family_missing_is_half (g : Fam) (o : SimOpts) :
     familySimilarity ⟨none, none⟩ g o = 1 / 2 := by
@@ -199,9 +208,9 @@ example : jaro [77, 65, 82, 84, 72, 65] [77, 65, 82, 72, 84, 65] = 17 / 18 := by
 example : jaroWinkler [97, 98, 99, 100] [97, 98, 100, 99] 0 8 = 11 / 15 := by decide +kernel
 -- normalisation: "Jo  HN." ~ "jo hn"
 example : cleanName [74, 111, 32, 32, 72, 78, 46] = [106, 111, 32, 104, 110] := by decide +kernel
--- the guard of jaro_symm_partial holds for a non-trivial pair (window 0, one agreeing position)
-example : SymmGuard [97, 98, 99] [99, 98, 97] ∧ jaro [97, 98, 99] [99, 98, 97] = 5 / 9 := by
-  refine ⟨Or.inr (Or.inr (by decide)), by decide +kernel⟩
+-- a pair on which the two greedy runs visit the positions in different orders (window 1)
+example : jaro [97, 98, 97, 97, 98, 98] [98, 97, 97, 98, 97, 98] = jaro [98, 97, 97, 98, 97, 98] [97, 98, 97, 97, 98, 98] ∧
+    jaro [97, 98, 97, 97, 98, 98] [98, 97, 97, 98, 97, 98] = 8 / 9 := by decide +kernel
 -- the default options are a valid configuration, so every `Valid` hypothesis above is satisfiable
 example : defaultOpts.Valid := defaultOpts_valid
 -- a date pair strictly inside the parabola: 1900 vs 1901, MaxYears 3
